@@ -139,6 +139,31 @@ def check(run):
                   '%s/%s/%s' % (method, 'warm' if warm else 'cold', 'circular' if circular else 'acyclic'))
         if k < 2:
             run.sample({'method': method, 'warm': warm, 'ops': ops, 'circular': circular})
+    # ---- constant-folded formulas: their value objects live inside the model and are copied with it ----------------------------
+    P = "'[b1.xlsx]S1'!"
+    for k in range(16 if quick else 300):
+        r0, c0 = rnd.choice([(1, 2), (2, 1), (2, 2), (1, 3), (3, 1)])
+        R, C = r0 + rnd.randint(0, 2), c0 + rnd.randint(0, 2)
+        lit = '{' + ';'.join(','.join(str(rnd.choice([1, 2, 3, 5, 7])) for _ in range(c0)) for _ in range(r0)) + '}'
+        f = rnd.choice(['=%s', '=ISERR(%s/0)', '=ISERROR(%s/1)', '=%s*2', '=ISNUMBER(%s)', '=IF(%s>2,"big","small")', '=ISNA(%s)']) % lit
+        ref = 'A1:%s%d' % (bookgen.col_letters(C), R)
+        d = {P + ref: f, P + 'F1': "=SUM(%sA1:%s%d)" % (P, bookgen.col_letters(C), R), P + 'F2': '=ISERROR(%s%s%d)' % (P, bookgen.col_letters(C), R)}
+        case = {'workbook': d, 'stream': 'constant-folded'}
+        for method in ('deepcopy', 'dill'):
+            run.count(1, (json.dumps(d, sort_keys=True), method), True, 'constant-folded/' + method)
+            try:
+                orig = bookrun.ExcelModel().from_dict(d)
+                if rnd.random() < 0.5:
+                    orig.calculate()
+                cp = copy.deepcopy(orig) if method == 'deepcopy' else dill.loads(dill.dumps(orig))
+                a, b, c = vals_of(orig.calculate()), vals_of(cp.calculate()), vals_of(bookrun.ExcelModel().from_dict(d).calculate())
+            except Exception as ex:
+                run.violation('constant-folded formula: %s raised %s: %s' % (method, type(ex).__name__, str(ex)[:100]), dict(case, method=method))
+                continue
+            if not (a == b == c):
+                kk = [x for x in c if not (a.get(x) == b.get(x) == c[x])][0]
+                run.violation('node %s is %s on the original, %s on its %s copy, %s on a never-copied twin' % (kk, a.get(kk), b.get(kk), method, c[kk]),
+                              dict(case, method=method, node=kk))
     # known-finding witness
     try:
         dd = {"'[nofile9.xlsx]S'!A1": 2, "'[nofile9.xlsx]S'!B1": "='[nofile9.xlsx]S'!A1*2"}
